@@ -15,6 +15,7 @@
 from torch import device as torch_device
 
 from .nn import QModuleMixin, quantize_module
+from .tensor import qtypes
 
 
 __all__ = ["quantize", "freeze", "requantize"]
@@ -51,7 +52,14 @@ def requantize(model, state_dict):
 
     # empty the model params by moving to the meta device, then quantize
     model.to(torch_device("meta"))
-    quantize(model)
+    # Some modules are only quantized when their activations are: recover that information from the state_dict
+    # (the actual qtypes of each module are restored when loading the state_dict)
+    activations = None
+    for name, value in state_dict.items():
+        if name.endswith("activation_qtype") and value != "none":
+            activations = qtypes[value]
+            break
+    quantize(model, activations=activations)
 
     # move the quantized but empty model to cpu then load the state_dict
     model.to_empty(device=torch_device("cpu"))
